@@ -329,6 +329,9 @@ func Finish(verifDir string, spec Spec, tier string, seed int, r *Result, start 
 	if len(r.Samples) == 0 {
 		cov["samples"] = []interface{}{"(no sample recorded)"}
 	}
+	if spec.Assumptions == nil {
+		spec.Assumptions = []string{}
+	}
 	ev := map[string]interface{}{
 		"property_id": spec.ID,
 		"tier":        tier,
